@@ -22,9 +22,10 @@ async fn open_epoch(s: &mut Sim, g: &mut G) -> u64 {
 }
 
 async fn run(mut s: Sim, mut rng: Rng, _len: usize) -> Sim {
-    let which = ((s.n >> 32) - 1) % 22;   // history id: consecutive histories run the scripts in turn
+    let which = ((s.n >> 32) - 1) % 23;   // history id: consecutive histories run the scripts in turn
     if (7..12).contains(&which) { return unconfigured(s, rng, which).await; }
     if which == 17 { return feature_unconfigured(s, rng).await; }
+    if which == 22 { return accountant_unappointed(s, rng).await; }
     let mut g = bootstrap_with(&mut s, &mut rng, None).await;
     // make the configuration deterministic where the scripts depend on it
     for st in [RdSetting::DebtAccountant(g.debt_acc.clone()), RdSetting::RewardsAccountant(g.rew_acc.clone()), RdSetting::ContributorManager(g.cmgr.clone()),
@@ -197,7 +198,13 @@ async fn run(mut s: Sim, mut rng: Rng, _len: usize) -> Sim {
                   let p = s.proof(&ta, idx).unwrap();
                   for _ in 0..2 { let ix = s.rd_write_off(&g.debt_acc, ea, &poor, ea, amount, &p); s.op(tx(vec![ix])).await; } }
               let p3 = s.proof(&ta, 3).unwrap();
-              let ix = s.rd_write_off(&g.debt_acc, ea, &poor, eb, 700, &p3); s.op(tx(vec![ix])).await; }
+              let ix = s.rd_write_off(&g.debt_acc, ea, &poor, eb, 700, &p3); s.op(tx(vec![ix])).await;
+              // the deposit now holds exactly its rent plus leaf 5's amount (15): the debt is payable, so it cannot be written off;
+              // one lamport less and it can
+              let p5 = s.proof(&ta, 5).unwrap();
+              s.op(Op::Airdrop(K::RdDeposit(b(&poor)), 15)).await;
+              let ix = s.rd_write_off(&g.debt_acc, ea, &poor, ea, 15, &p5); s.op(tx(vec![ix])).await;
+              let ix = s.rd_pay(ea, &poor, 15, &p5); s.op(tx(vec![ix])).await; }
         }
         6 => { // C15 / C04: grace periods whose second count exceeds 16 bits: creation pacing and the calculation gate at the boundaries
             for st in [RdSetting::InitGrace(2880), RdSetting::CalcGrace(1440)] { let ix = s.rd_configure(&g.admin, st); s.op(tx(vec![ix])).await; }
@@ -316,6 +323,12 @@ async fn run(mut s: Sim, mut rng: Rng, _len: usize) -> Sim {
             let ix = s.rd_finalize_rewards(&g.payer, e0); s.op(tx(vec![ix])).await;          // null root, nothing collectible: accepted
             let ix = s.sw_buy(&g.fills, &K::Ata(b(&g.buyer), b(&K::Mint)), &g.buyer, &g.users[8], 9_999, 700); s.op(tx(vec![ix])).await;
             let ix = s.rd_sweep(e0, &K::SwapMock, &g.fills); s.op(tx(vec![ix])).await;       // no-op: pool, registry and custody untouched
+            // C12 / C01: a leaf that was paid cannot be written off afterwards (paid XOR written off), here with write-offs enabled on e1
+            let ix = s.rd_enable_write_off(e1, &g.payer); s.op(tx(vec![ix])).await;
+            let ix = s.rd_write_off(&g.debt_acc, e1, &rich, e1, 700, &p1); s.op(tx(vec![ix])).await;
+            // C12 / C04: debt figures re-posted on e0 after debt and rewards are final: refused
+            let t9 = s.def_tree(0, vec![Leaf::Debt { node: rich.clone(), amount: 100 }]);
+            let ix = s.rd_configure_debt(&g.debt_acc, e0, 1, 100, t9.root); s.op(tx(vec![ix])).await;
         }
         18 => { // C08 / C07: one operations wallet holds the admin role AND the debt-accountant, rewards-accountant and contributor-manager
                 // roles: while paused the admin may administer, but the role-gated instructions it signs are still refused
@@ -356,6 +369,14 @@ async fn run(mut s: Sim, mut rng: Rng, _len: usize) -> Sim {
                     let _ = open_epoch(&mut s, &mut g).await;
                 }
                 let ix = s.rd_finalize_rewards(&g.payer, e); s.op(tx(vec![ix])).await;
+                if min == 2 {   // C11: an epoch that collected nothing at all: its single leaf is distributed (nothing moves, nothing burns) and
+                                // the relayer is still paid the fee
+                    let ix = s.rd_sweep(e, &K::SwapMock, &g.fills); s.op(tx(vec![ix])).await;
+                    let recs: Vec<K> = g.recips[0].iter().map(|x| x.0.clone()).collect();
+                    for (r, _) in g.recips[0].clone() { s.reg_ata(&r); s.op(Op::CreateAta { payer: g.payer.clone(), owner: r }).await; }
+                    let p = s.proof(&rt, 0).unwrap();
+                    let ix = s.rd_distribute(e, &g.svcs[0].clone(), &g.relayer, &recs, 1_000_000_000, 0, &p); s.op(tx(vec![ix])).await;
+                }
             }
         }
         15 => { // C11 / C12 / C04 / C16: a rewards root with one leaf more than the declared number of contributors (the surplus leaf can
@@ -381,6 +402,12 @@ async fn run(mut s: Sim, mut rng: Rng, _len: usize) -> Sim {
             let rt2 = s.def_tree(1, vec![Leaf::Reward { contributor: g.svcs[1].clone(), unit_share: 1_000_000_000, packed: 0 }]);
             let ix = s.rd_configure_rewards(&g.rew_acc, e, 8, rt.root); s.op(tx(vec![ix])).await;
             let ix = s.rd_configure_rewards(&g.rew_acc, e, 1, rt2.root); s.op(tx(vec![ix])).await;
+            let ix = s.rd_configure_rewards(&g.rew_acc, e, 3, rt2.root); s.op(tx(vec![ix])).await;      // same count, another root: refused too
+            // C04 / C02: nothing to sweep (no debt) does not mean swept: a distribution before the sweep is refused
+            { let recs0: Vec<K> = g.recips[0].iter().map(|x| x.0.clone()).collect();
+              for (r, _) in g.recips[0].clone() { s.reg_ata(&r); s.op(Op::CreateAta { payer: g.payer.clone(), owner: r }).await; }
+              let p = s.proof(&rt, 0).unwrap();
+              let ix = s.rd_distribute(e, &v, &g.relayer, &recs0, 250_000_000, 0, &p); s.op(tx(vec![ix])).await; }
             let nt = s.def_tree(1, vec![]);
             let ix = s.rd_configure_rewards(&g.rew_acc, e, 0, nt.root); s.op(tx(vec![ix])).await;
             let ix = s.rd_sweep(e, &K::SwapMock, &g.fills); s.op(tx(vec![ix])).await;
@@ -397,7 +424,10 @@ async fn run(mut s: Sim, mut rng: Rng, _len: usize) -> Sim {
               let ix = s.rd_set_rewards_manager(&g.cmgr, &v3, &m3); s.op(tx(vec![ix])).await;
               let four: Vec<(K, u16)> = (0..4).map(|j| (K::User(330 + j), 2_500u16)).collect();
               let two: Vec<(K, u16)> = (0..2).map(|j| (K::User(340 + j), 5_000u16)).collect();
-              for rec in [four, two] { let ix = s.rd_configure_contributor_recipients(&m3, &v3, &rec); s.op(tx(vec![ix])).await; } }
+              for rec in [four, two] { let ix = s.rd_configure_contributor_recipients(&m3, &v3, &rec); s.op(tx(vec![ix])).await; }
+              // nine entries whose first eight already total 100%: refused, the stored table stays
+              let nine: Vec<(K, u16)> = (0..9).map(|j| (K::User(350 + j), if j < 8 { 1_250u16 } else { 4_000 })).collect();
+              let ix = s.rd_configure_contributor_recipients(&m3, &v3, &nine); s.op(tx(vec![ix])).await; }
             // block, block again (a retry), then the contributor manager tries to replace the rewards manager: still refused
             let (v2, m2) = (g.svcs[2].clone(), g.users[9].clone());
             let ix = s.rd_set_rewards_manager(&g.cmgr, &v2, &m2); s.op(tx(vec![ix])).await;
@@ -501,7 +531,8 @@ async fn run(mut s: Sim, mut rng: Rng, _len: usize) -> Sim {
             let ix = s.rogue_buy(2, &src, &g.buyer, &g.users[8], 900, debt); s.op(tx(vec![ix])).await;
             let script = K::User(61);
             let reply = |a: u64, z: u64| { let mut d = vec![1u8]; d.extend_from_slice(&a.to_le_bytes()); d.extend_from_slice(&z.to_le_bytes()); d.extend_from_slice(&1u64.to_le_bytes()); d };
-            for data in [vec![0u8; 4], vec![2u8, 23, 0], vec![2u8, 25, 0], reply(debt + 1, 900), reply(debt, 901), reply(debt, 900)] {
+            let trailing = { let mut d = reply(debt, 900); d[0] = 3; d.push(0xAB); d };      // a well-formed reply followed by one more byte
+            for data in [vec![0u8; 4], vec![2u8, 23, 0], vec![2u8, 25, 0], trailing, reply(debt + 1, 900), reply(debt, 901), reply(debt, 900)] {
                 s.op(Op::ForgeRaw { to: script.clone(), owner: rogue.clone(), lamports: 2_000_000, data }).await;
                 let ix = s.rd_sweep(e, &rogue, &script); s.op(tx(vec![ix])).await;
             }
@@ -544,5 +575,20 @@ async fn feature_unconfigured(mut s: Sim, mut rng: Rng) -> Sim {
     let ix = s.rd_configure(&g.admin, RdSetting::FeatureActivation(1)); s.op(tx(vec![ix])).await;
     let ix = s.rd_enable_write_off(e, &g.payer); s.op(tx(vec![ix])).await;                       // accepted
     let ix = s.rd_write_off(&g.debt_acc, e, &g.nodes[6].clone(), e, 9_000, &p); s.op(tx(vec![ix])).await;
+    s
+}
+
+/// C15 / C07: no debt accountant was ever appointed (script 22): nobody - in particular not the admin - can create a distribution;
+/// after the admin appoints one, that wallet can
+async fn accountant_unappointed(mut s: Sim, mut rng: Rng) -> Sim {
+    let mut g = bootstrap_with(&mut s, &mut rng, Some(0)).await;
+    for st in [RdSetting::CalcGrace(1), RdSetting::InitGrace(1), RdSetting::Paused(false)] { let ix = s.rd_configure(&g.admin, st); s.op(tx(vec![ix])).await; }
+    g.clock += 400; s.op(Op::SetClock(g.clock)).await;
+    for who in [g.admin.clone(), g.debt_acc.clone(), g.payer.clone()] {
+        let ix = s.rd_initialize_distribution(&who, &g.payer, 0); s.op(tx(vec![ix])).await;          // refused: the role is vacant
+    }
+    let ix = s.rd_configure(&g.admin, RdSetting::DebtAccountant(g.debt_acc.clone())); s.op(tx(vec![ix])).await;
+    let ix = s.rd_initialize_distribution(&g.admin, &g.payer, 0); s.op(tx(vec![ix])).await;           // still not the admin
+    let ix = s.rd_initialize_distribution(&g.debt_acc, &g.payer, 0); s.op(tx(vec![ix])).await;        // accepted
     s
 }
